@@ -7,6 +7,6 @@ mkdir -p .cache evidence replay
 cp /repo/Cargo.lock harness/Cargo.lock
 python3 tools/gen_consts.py
 tools/coqproject.sh
-(cd coq && timeout 3000 make -j16 2>&1 | tail -40)
+(cd coq && timeout 3000 make -k -j16 2>&1 | tail -40)
 (cd harness && cargo build --offline -q -p hlow -p hiroh 2>&1 | tail -40)
 echo setup done
